@@ -29,17 +29,24 @@ def _job(job):
     raise ValueError(kind)
 
 
-def run_jobs(jobs, procs=PROCS):
+def run_jobs(jobs, procs=PROCS, timeout=600.0):
     if not jobs:
         return []
-    out = [None] * len(jobs)
-    ctx = mp.get_context("fork")
-    with cf.ProcessPoolExecutor(max_workers=min(procs, len(jobs)), mp_context=ctx) as ex:
-        futs = {ex.submit(_job, j): i for i, j in enumerate(jobs)}
-        for f in cf.as_completed(futs):
-            out[futs[f]] = f.result()
+    from . import procs as pr
+
+    res = pr.run(_job, jobs, procs=min(procs, len(jobs)), timeout=timeout)
     traces = []
-    for i, trs in enumerate(out):
+    for i, (j, (st, r)) in enumerate(zip(jobs, res)):
+        if st == "ok":
+            trs = r
+        elif st == "timeout":
+            # a run that hangs is an event no PSRun action matches
+            trs = [{"cfg": {"np": 1, "one": 1, "target": 0, "nTotal": 0, "metric": "ess", "clustering": False, "clusterEvery": 1, "cap": 0,
+                            "minSweeps": 1, "maxSweeps": 1},
+                    "events": [{"ev": "Raised", "what": f"run did not complete within {r:.0f}s (hang)", "step": "?"}],
+                    "meta": {"label": j.get("label", ""), "seed": j.get("seed"), "conf": j.get("conf"), "dbg": [None]}}]
+        else:
+            raise RuntimeError("recording worker failed (machinery): " + r)
         for t in trs:
             t["meta"]["job"] = i
             traces.append(t)
